@@ -58,6 +58,21 @@ def run(R):
               name="SplitVacuity", count=False)
     if "NoEmptyDropped" not in g.violated:
         raise vlib.MachineryError("vacuity guard: empty-field dropping never exercised")
+    # seeded random longer words (the model agreement is checked on them, too)
+    sim = R.tlc("SplitGen", "INIT Init\nNEXT Next\nINVARIANTS ModelOK Emit\nCONSTANTS MaxLen = 9\n EmitCases = TRUE\n", simulate="num=%d" % (4 if R.tier == "quick" else 100),
+                depth=10, workers=8, name="SplitSim", timeout=3000)
+    if sim.violated:
+        raise vlib.MachineryError("Split.tla: operational and declarative descriptions disagree on a random word: %s" % sim.violated)
+    seen = set(tuple(c["segs"]) for c in cases)
+    nsim = 0
+    for p in sim.prints:
+        if p and p[0] == "CASE":
+            c = json.loads(p[1])
+            if tuple(c["segs"]) not in seen:
+                seen.add(tuple(c["segs"]))
+                cases.append(c)
+                nsim += 1
+    R.notes["random_longer_words"] = nsim
     exp = {tuple(c["segs"]): c["exp"] for c in cases}
     obs, _ = R.drive("split", [dict(segs=c["segs"]) for c in cases], shards=vlib.NCPU)
     if len(obs) != len(cases):
